@@ -207,18 +207,27 @@ Definition declaring (s : state) (lP lA : list bstr) : Prop :=
 Lemma untouched_point_rate : forall V, untouched [(nm_POINT, nm_RATE, V)].
 Proof. intros V. unfold untouched, apart. repeat split; (apply Forall_cons; [cbn [fst snd]; first [left; discriminate|right; discriminate]|apply Forall_nil]). Qed.
 
-Theorem declare_step : forall nP nA s s' lP lA,
-  declaring s lP lA -> nlen lP + nlen nP < 2147483648 -> nlen lA + nlen nA < 2147483648 ->
-  update_parameters f_key f_tosize f_div nP nA s = ROk tt s' ->
-  declaring s' (lP ++ nP) (lA ++ nA) /\ pro s' = pro s /\ h_byframe (hdr s') = 1.
+Lemma untouched_cons : forall a X, untouched [a] -> untouched X -> untouched (a :: X).
 Proof.
-  intros nP nA s s' lP lA (HI & HM & Ex & Fs & LP & LA & (rate & Hr & Hz) & Hb) SP SA H.
+  intros a X (A1 & A2 & A3 & A4 & A5 & A6 & A7 & A8 & A9 & A10 & A11) (B1 & B2 & B3 & B4 & B5 & B6 & B7 & B8 & B9 & B10 & B11).
+  unfold untouched, apart in *. repeat split; (apply Forall_cons; [match goal with Hh : Forall _ [a] |- _ => apply Forall_inv in Hh; exact Hh end|assumption]).
+Qed.
+
+(* X0: any further facts about parameters the updater does not write (ANALOG:RATE, other groups): they still hold afterwards *)
+Theorem declare_step_carrying : forall nP nA s s' lP lA X0,
+  declaring s lP lA -> untouched X0 -> Forall (holds (groups s)) X0 ->
+  nlen lP + nlen nP < 2147483648 -> nlen lA + nlen nA < 2147483648 ->
+  update_parameters f_key f_tosize f_div nP nA s = ROk tt s' ->
+  declaring s' (lP ++ nP) (lA ++ nA) /\ pro s' = pro s /\ h_byframe (hdr s') = 1 /\ Forall (holds (groups s')) X0.
+Proof.
+  intros nP nA s s' lP lA X0 (HI & HM & Ex & Fs & LP & LA & (rate & Hr & Hz) & Hb) UX0 HX0 SP SA H.
   (* the header of s' announces one sub-frame: derived before the agreement, which needs the bound *)
   destruct (update_parameters_from f_key f_tosize f_div nP nA s s' H) as [s1 [[Eh [Ef Ep]] U]].
-  set (XF := [(nm_POINT, nm_RATE, Vflt0 rate)]).
-  assert (HX : Forall (holds (groups s)) XF) by (constructor; [apply (r_float0_holds 12); exact Hr|constructor]).
+  set (XF := (nm_POINT, nm_RATE, Vflt0 rate) :: X0).
+  assert (HX : Forall (holds (groups s)) XF) by (constructor; [apply (r_float0_holds 12); exact Hr|exact HX0]).
+  assert (UXF : untouched XF) by (apply untouched_cons; [apply untouched_point_rate|exact UX0]).
   pose proof (inv_frameless_facts s lP lA XF HI LP LA HX) as F0.
-  destruct (hoare_run _ _ _ _ s (update_parameters_declare f_key f_tosize f_div f_key_nt f_tosize_nt nP nA s lP lA XF HM Fs (untouched_point_rate _) F0 SP SA) eq_refl) as [_ Q].
+  destruct (hoare_run _ _ _ _ s (update_parameters_declare f_key f_tosize f_div f_key_nt f_tosize_nt nP nA s lP lA XF HM Fs UXF F0 SP SA) eq_refl) as [_ Q].
   specialize (Q tt s' H). destruct Q as [HM' [Fs' [Pr' D]]]. rewrite Forall_forall in D.
   pose proof (update_header_agrees f_key f_tosize f_div true s1 s' U) as (G & _).
   assert (hR : r_float0 12 (groups s') nm_POINT nm_RATE = Ok rate) by (apply holds_vflt0, D; unfold decl_post, XF; cbn [In]; auto 20).
@@ -244,10 +253,20 @@ Proof.
     apply opt_eqb_some in I6. injection I6 as I6.
     rewrite !andb_true_iff in I9. destruct I9 as [[[[[[[_ _] _] C4] _] _] _] _]. apply opt_eqb_some in C4.
     rewrite (lk_strs_count _ _ _ _ LA) in C4. injection C4 as C4. lia. }
-  destruct (update_parameters_declare_keeps_inv f_key f_tosize f_div f_key_nt f_tosize_nt nP nA s s' lP lA XF HI HM Ex Fs (untouched_point_rate _) HX LP LA SP SA)
-    as (I' & M' & E' & F' & P' & L1 & L2 & _ & _ & _); try exact H; try (rewrite B1; unfold two64; lia).
-  split; [|split; [exact P'|exact B1]].
+  destruct (update_parameters_declare_keeps_inv f_key f_tosize f_div f_key_nt f_tosize_nt nP nA s s' lP lA XF HI HM Ex Fs UXF HX LP LA SP SA)
+    as (I' & M' & E' & F' & P' & L1 & L2 & _ & _ & HXF'); try exact H; try (rewrite B1; unfold two64; lia).
+  split; [|split; [exact P'|split; [exact B1|apply Forall_inv_tail in HXF'; exact HXF']]].
   unfold declaring. repeat split; try assumption. - exists rate. split; assumption. - right. exact B1.
+Qed.
+
+Theorem declare_step : forall nP nA s s' lP lA,
+  declaring s lP lA -> nlen lP + nlen nP < 2147483648 -> nlen lA + nlen nA < 2147483648 ->
+  update_parameters f_key f_tosize f_div nP nA s = ROk tt s' ->
+  declaring s' (lP ++ nP) (lA ++ nA) /\ pro s' = pro s /\ h_byframe (hdr s') = 1.
+Proof.
+  intros nP nA s s' lP lA D SP SA H.
+  assert (U0 : untouched []) by (unfold untouched, apart; repeat split; constructor).
+  destruct (declare_step_carrying nP nA s s' lP lA [] D U0 (Forall_nil _) SP SA H) as (A & B & C & _). auto.
 Qed.
 End Declaring.
 
@@ -331,5 +350,50 @@ Proof.
   destruct (declare_analogs_run cs s1 s' (map rtrim ps) [] D1) as [D2 P2]; try assumption.
   - unfold nlen in *. rewrite map_length. exact SP.
   - cbn [app] in D2. split; [exact D2|congruence].
+Qed.
+(* the same with further facts about parameters the updater does not write carried along (ANALOG:RATE, other groups) *)
+Lemma declare_points_run_carrying : forall ps s s' lP lA X0, declaring s lP lA -> untouched X0 -> Forall (holds (groups s)) X0 ->
+  nlen lP + nlen ps < 2147483648 -> nlen lA < 2147483648 ->
+  run_ops (map OPoint ps) s = ROk tt s' -> declaring s' (lP ++ map rtrim ps) lA /\ Forall (holds (groups s')) X0.
+Proof.
+  induction ps as [|n ps IH]; intros s s' lP lA X0 D U HX SP SA H; cbn [map run_ops] in H.
+  - injection H as <-. rewrite app_nil_r. auto.
+  - cbn [step] in H. destruct (api_point f_key f_tosize f_div n s) as [[] s1| |] eqn:E; try discriminate.
+    assert (Fs : frames s = []) by apply D. rewrite (api_point_frameless n s Fs) in E.
+    assert (S1 : nlen lP + nlen [rtrim n] < 2147483648) by (unfold nlen in *; cbn [length] in *; lia).
+    assert (S2 : nlen lA + nlen (@nil bstr) < 2147483648) by (unfold nlen in *; cbn [length]; lia).
+    destruct (declare_step_carrying f_key f_tosize f_div f_key_nt f_tosize_nt [rtrim n] [] s s1 lP lA X0 D U HX S1 S2 E) as [D1 [_ [_ HX1]]].
+    rewrite app_nil_r in D1.
+    destruct (IH s1 s' (lP ++ [rtrim n]) lA X0 D1 U HX1) as [D' HX']; try assumption.
+    + unfold nlen in *. rewrite app_length. cbn [length] in *. lia.
+    + split; [|exact HX']. cbn [map]. rewrite <- app_assoc in D'. exact D'.
+Qed.
+Lemma declare_analogs_run_carrying : forall cs s s' lP lA X0, declaring s lP lA -> untouched X0 -> Forall (holds (groups s)) X0 ->
+  nlen lP < 2147483648 -> nlen lA + nlen cs < 2147483648 ->
+  run_ops (map OAnalog cs) s = ROk tt s' -> declaring s' lP (lA ++ map rtrim cs) /\ Forall (holds (groups s')) X0.
+Proof.
+  induction cs as [|n cs IH]; intros s s' lP lA X0 D U HX SP SA H; cbn [map run_ops] in H.
+  - injection H as <-. rewrite app_nil_r. auto.
+  - cbn [step] in H. destruct (api_analog f_key f_tosize f_div n s) as [[] s1| |] eqn:E; try discriminate.
+    assert (Fs : frames s = []) by apply D. rewrite (api_analog_frameless n s Fs) in E.
+    assert (S1 : nlen lP + nlen (@nil bstr) < 2147483648) by (unfold nlen in *; cbn [length]; lia).
+    assert (S2 : nlen lA + nlen [rtrim n] < 2147483648) by (unfold nlen in *; cbn [length] in *; lia).
+    destruct (declare_step_carrying f_key f_tosize f_div f_key_nt f_tosize_nt [] [rtrim n] s s1 lP lA X0 D U HX S1 S2 E) as [D1 [_ [_ HX1]]].
+    rewrite app_nil_r in D1.
+    destruct (IH s1 s' lP (lA ++ [rtrim n]) X0 D1 U HX1) as [D' HX']; try assumption.
+    + unfold nlen in *. rewrite app_length. cbn [length] in *. lia.
+    + split; [|exact HX']. cbn [map]. rewrite <- app_assoc in D'. exact D'.
+Qed.
+Theorem declarations_from_init_carrying : forall ps cs s' X0, untouched X0 -> Forall (holds (groups init)) X0 ->
+  nlen ps < 2147483648 -> nlen cs < 2147483648 ->
+  run_ops (map OPoint ps ++ map OAnalog cs) init = ROk tt s' ->
+  declaring s' (map rtrim ps) (map rtrim cs) /\ Forall (holds (groups s')) X0.
+Proof.
+  intros ps cs s' X0 U HX SP SA H. destruct (run_ops_app _ _ _ _ H) as [s1 [H1 H2]].
+  destruct (declare_points_run_carrying ps init s1 [] [] X0 declaring_init U HX) as [D1 HX1]; try assumption; [unfold nlen; cbn [length]; lia|].
+  cbn [app] in D1.
+  destruct (declare_analogs_run_carrying cs s1 s' (map rtrim ps) [] X0 D1 U HX1) as [D2 HX2]; try assumption.
+  - unfold nlen in *. rewrite map_length. exact SP.
+  - cbn [app] in D2. auto.
 Qed.
 End FromInit.
